@@ -60,6 +60,28 @@ def stepSbuf (st : St) (ws : List String) : St × String :=
     match t.toInt? with
     | some t => ({ st with b := pushLayer st.b t }, "ok")
     | none => (st, "bad-op")
+  | "sbuf" :: "stack" :: specs =>
+    -- scripted SerializableLayers, outermost first: <type>:<hdrlen>:<1|0>
+    let parse (w : String) : Option Ser :=
+      match w.splitOn ":" with
+      | [t, h, o] =>
+        match t.toNat?, h.toNat?, o.toNat? with
+        | some t, some h, some o =>
+          if o ≤ 1 then
+            some { typ := Int.ofNat t,
+                   hdr := fun p => (List.range h).map (fun j => UInt8.ofNat ((t * 16 + j + p.length) % 256)),
+                   ok := fun _ => o == 1 }
+          else none
+        | _, _, _ => none
+      | _ => none
+    match specs.mapM parse with
+    | none => (st, "bad-op")
+    | some ls =>
+      let (r, b', obs) := serializeLayersObs st.b ls
+      let tag := match r with | .ok _ => "ok" | .err _ => "err" | .panic k => "panic " ++ k.toString
+      let showL (l : List Int) : String := if l.isEmpty then "-" else ",".intercalate (l.map toString)
+      ({ b := b', slots := #[] },
+       joinSp [tag, "L=" ++ showL b'.layers, "O=" ++ ";".intercalate (obs.map showL), "B=" ++ hexOfBytes (contents b')])
   | ["sbuf", "layers"] => (st, joinSp ("ok" :: st.b.layers.map toString))
   | ["sbuf", "bytes"] => (st, showBytes st.b)
   | _ => (st, "bad-op")
